@@ -911,3 +911,85 @@ func isModelWidth(fn *ssa.Function, v ssa.Value, depth int) bool {
 	}
 	return false
 }
+
+// C17/cycle-guard-is-path-scoped: a guard that keeps a sample builder from expanding a packet inside its own sample is taken off
+// again when the builder returns.
+//
+// The sample-instance emitters recurse over the members of a packet; a packet that contains itself would make them recurse for
+// ever (C11/R). The cure is a set of the packets *being built*: marked on entry, consulted before descending. Unlike the "already
+// emitted" set of a type emitter, this set must forget a packet when its sample is complete - otherwise the second member of a type
+// that already got a sample in the same message (two legs, sender and owner) is taken for a cycle and left out, and the emitted test
+// encodes a message with a missing member. Decided: a recursive test/sample emitter that marks a set which outlives the call and
+// consults it in front of its recursive call also removes the mark (delete, or a store of false) in the same routine.
+func cycleGuardIsPathScoped(w *World, r *Report, prop string) {
+	rule := prop + "/cycle-guard-is-path-scoped"
+	n := 0
+	for _, fn := range w.srcFuncs {
+		if !w.isSubjectFunc(fn) || fn.Blocks == nil || !isGeneratorFunc(fn) || roleOf(fn) != "test" {
+			continue
+		}
+		// recursive?
+		recursive := false
+		forEachInstr(fn, func(_ *ssa.BasicBlock, ins ssa.Instruction) {
+			if c, ok := ins.(ssa.CallInstruction); ok && c.Common().StaticCallee() == fn {
+				recursive = true
+			}
+		})
+		if !recursive {
+			continue
+		}
+		type guard struct {
+			m   ssa.Value
+			pos string
+		}
+		var guards []guard
+		forEachInstr(fn, func(_ *ssa.BasicBlock, ins ssa.Instruction) {
+			mu, ok := ins.(*ssa.MapUpdate)
+			if !ok {
+				return
+			}
+			if _, fresh := valueRoot(mu.Map).(*ssa.MakeMap); fresh {
+				return
+			}
+			if k, ok := mu.Value.(*ssa.Const); !ok || k.Value == nil || k.Value.String() != "true" {
+				return
+			}
+			// consulted in this routine
+			consulted := false
+			forEachInstr(fn, func(_ *ssa.BasicBlock, i2 ssa.Instruction) {
+				if lk, ok := i2.(*ssa.Lookup); ok && sameMapExpr(lk.X, mu.Map) {
+					consulted = true
+				}
+			})
+			if consulted {
+				guards = append(guards, guard{mu.Map, w.instrPos(mu)})
+			}
+		})
+		for i, g := range guards {
+			n++
+			unmarked := false
+			forEachInstr(fn, func(_ *ssa.BasicBlock, ins ssa.Instruction) {
+				switch x := ins.(type) {
+				case *ssa.MapUpdate:
+					if k, ok := x.Value.(*ssa.Const); ok && k.Value != nil && k.Value.String() == "false" && sameMapExpr(x.Map, g.m) {
+						unmarked = true
+					}
+				case ssa.CallInstruction:
+					if b, ok := x.Common().Value.(*ssa.Builtin); ok && b.Name() == "delete" && len(x.Common().Args) == 2 && sameMapExpr(x.Common().Args[0], g.m) {
+						unmarked = true
+					}
+				}
+			})
+			key := fmt.Sprintf("%s: the set %s of packets being sampled forgets a packet when its sample is done", recvNamedCore(fn), mapDesc(g.m))
+			if i > 0 {
+				key += fmt.Sprintf(" #%d", i+1)
+			}
+			if unmarked {
+				r.pass(rule, key, g.pos, "")
+			} else {
+				r.fail(rule, key, g.pos, fnKey(fn)+" marks a packet in a set that outlives the call, consults the set before descending into a member, and never removes the mark: the second member of a packet type that already got a sample in the same message is taken for a cycle and left out of the emitted test")
+			}
+		}
+	}
+	r.note("%s: recursion guards of sample emitters examined: %d", rule, n)
+}
